@@ -171,6 +171,22 @@ Proof.
 Qed.
 Print Assumptions C07_linearizable.
 
+(* reading "serial": at the moment a thread takes any step of a serial schedule, every other thread is outside its
+   critical sections.  With C07_one_section_any_batch (AddTriples = one section per batch) this is "a lookup never
+   observes part of one AddTriples batch": none of the lookup's reads is taken while the adding thread is between
+   its acquire and its release. *)
+Theorem C07_no_partial_batch :
+  forall (Local Value : Type) (begin_local : nat -> Local) (rd_eff : Local -> loc -> Value -> Local)
+         (wr_eff : Local -> loc -> Value * Local) (send_val : Local -> Value) (sends_ready : tid -> bool)
+         (s0 s1 : state Local Value) (C1 C2 : list tid) (t : tid),
+    serial begin_local rd_eff wr_eff send_val sends_ready s0 (C1 ++ t :: C2) ->
+    run begin_local rd_eff wr_eff send_val sends_ready s0 C1 = Some s1 ->
+    forall u, u <> t -> held_of s1 u = [].
+Proof.
+  intros Local Value bl re we sv sr s0 s1 C1 C2 t. exact (serial_no_partial_section bl re we sv sr s0 C1 t C2 s1).
+Qed.
+Print Assumptions C07_no_partial_batch.
+
 (* for executions stopped at an arbitrary point: a serial part C followed by the steps P of the sections that are
    still open (no releases, no commit events) *)
 Theorem C07_linearizable_prefix :
